@@ -2960,7 +2960,7 @@ class TypeBlocks(ContainerOperand):
                             # NOTE: start is never None
                             return sel[i, target_slice.start] # type: ignore
 
-                        target_slice = None
+                        edge_slice = None # the filled slice nearest the edge through which this block is left
                         for target_slice, value in slices_from_targets(
                                 target_index=target_index,
                                 target_values=target_values,
@@ -2970,10 +2970,13 @@ class TypeBlocks(ContainerOperand):
                                 slice_condition=slice_condition
                                 ):
                             assigned[i, target_slice] = value
+                            # slices are yielded left to right: going forward the block is left through its last column, going backward through its first
+                            if directional_forward or edge_slice is None:
+                                edge_slice = target_slice
 
-                        # update counts from the last slice; this will have already been limited if necessary, but need to reflext contiguous values going into the next block; if slices does not go to edge; will identify as needing as reset
-                        if target_slice is not None:
-                            bridging_count[i] = len(range(*target_slice.indices(length))) # type: ignore
+                        # update counts from the edge slice; this will have already been limited if necessary, but need to reflext contiguous values going into the next block; if slices does not go to edge; will identify as needing as reset
+                        if edge_slice is not None:
+                            bridging_count[i] = len(range(*edge_slice.indices(length))) # type: ignore
 
                     bridging_values = assigned[:, bridge_src_index]
                     bridging_isna = isna_array(bridging_values) # must reevaluate if assigned
